@@ -76,7 +76,9 @@ theorem spline_eq_curve (pts : List (List K)) (hv : Valid pts) (hn32 : nSegs pts
 /-! ### Spline tangent -/
 
 /-- Inside segment `k` (`k ≤ t·n < k+1`) the spline's tangent is the derivative of that
-segment's cubic at the local parameter (with respect to the local parameter). -/
+segment's cubic **with respect to the local parameter** `u = t·n − k`, evaluated at `u`. It is NOT
+the derivative with respect to the spline's own parameter `t`: that one is `n` times larger
+(`whole_curve_derivative`); `BezierSpline::tangent` returns the local one, i.e. `(1/n)·d/dt`. -/
 theorem splineTangent_inside (pts : List (List K)) (h : Valid pts) (t : K) (k : Nat)
     (hk : k < nSegs pts) (hk32 : k ≤ 4294967295)
     (h0 : (k : K) ≤ t * (nSegs pts : K)) (h1 : t * (nSegs pts : K) < (k : K) + 1)
